@@ -4,6 +4,8 @@ use crate::explore::{Ctx, Meta, Report, Tier};
 pub mod buildcheck;
 pub mod c01;
 pub mod c02;
+pub mod c06;
+pub mod c14;
 pub mod c16;
 pub mod c15;
 
@@ -20,6 +22,8 @@ pub fn meta(id: &str) -> Option<Meta> {
     Some(match id {
         "C01" => c01::meta(),
         "C02" => c02::meta(),
+        "C06" => c06::meta(),
+        "C14" => c14::meta(),
         "C15" => c15::meta(),
         "C16" => c16::meta(),
         _ => return None,
@@ -40,6 +44,8 @@ pub fn run_worker(id: &str, ctx: &Ctx, rep: &mut Report) {
     match id {
         "C01" => c01::run(ctx, rep),
         "C02" => c02::run(ctx, rep),
+        "C06" => c06::run(ctx, rep),
+        "C14" => c14::run(ctx, rep),
         "C15" => c15::run(ctx, rep),
         "C16" => c16::run(ctx, rep),
         _ => rep.machinery(format!("no engine for {id}")),
@@ -59,6 +65,8 @@ pub fn replay(id: &str, case: &serde_json::Value) -> Result<Option<String>, Stri
     match id {
         "C01" => c01::replay(case),
         "C02" => c02::replay(case),
+        "C06" => c06::replay(case),
+        "C14" => c14::replay(case),
         "C16" => c16::replay(case),
         _ => Err(format!("engine {id} has no single-case replay; rerun the check")),
     }
